@@ -2,6 +2,7 @@ package operators
 
 import (
 	"strings"
+	"sync"
 
 	"github.com/nyaruka/goflow/envs"
 	"github.com/nyaruka/goflow/excellent/types"
@@ -103,8 +104,15 @@ var Divide = numericalBinary(func(env envs.Environment, num1 *types.XNumber, num
 //
 // @operator exponent "^"
 var Exponent = numericalBinary(func(env envs.Environment, num1 *types.XNumber, num2 *types.XNumber) types.XValue {
+	// decimal.Pow isn't safe for concurrent use: for fractional exponents it goes through ExpTaylor which
+	// caches factorials in an unsynchronized package level slice
+	powMutex.Lock()
+	defer powMutex.Unlock()
+
 	return types.NewXNumber(num1.Native().Pow(num2.Native()))
 })
+
+var powMutex sync.Mutex
 
 // LessThan returns true if the first number is less than the second.
 //
